@@ -2086,6 +2086,8 @@ class Walker:
     def inline(self, fn2, node, ev, name, closure=False):
         if self.depth >= 6 or fn2 in self.stack:
             raise Stuck(f"call chain too deep / recursive at {name} (line {node.lineno})")
+        if any(isinstance(n, (ast.Yield, ast.YieldFrom, ast.Await)) for n in ast.walk(fn2)):
+            raise Stuck(f"{name} is a generator / coroutine: its body runs interleaved with its caller (line {node.lineno})")
         a = fn2.args
         params = [x.arg for x in a.posonlyargs + a.args]
         if params and params[0] in ("self", "cls") and not closure and not any(isinstance(d, ast.Name) and d.id == "staticmethod" for d in fn2.decorator_list):
